@@ -29,7 +29,7 @@ QViol(e) ==
   Panics(e)
   \cup (IF \E s \in DOMAIN e.hist : e.hist[s] > 0 /\ s \notin Statuses /\ s # "panic"
         THEN {[l |-> l, prop |-> "C01", what |-> "outcome outside {ok,error}", n |-> 1, first |-> 0]} ELSE {})
-  \cup NonEmpty({Viol("C02", "ill-formed range in " \o e.k, BadRanges(e.p, e))})
+  \cup NonEmpty({Viol("C02", "ill-formed range in " \o e.k, BadRanges(e))})
   \cup (IF ~FrameOK(e) THEN {[l |-> l, prop |-> "C04", what |-> "context fingerprint changed by " \o e.k, n |-> 1, first |-> 0]} ELSE {})
   \cup (IF e.k = "completion" /\ hasText THEN
           NonEmpty({Viol("C06", "edit range does not reach the cursor", BadEdits(e.p, e.f, e)),
@@ -57,7 +57,7 @@ TInit == SInit /\ l = 1 /\ bad = {}
 
 StepInit ==
   /\ Ev.ev \in {"Init", "Reset"}
-  /\ text' = EmptyFn /\ starts' = EmptyFn /\ fp' = "" /\ memo' = EmptyFn
+  /\ text' = EmptyFn /\ starts' = EmptyFn /\ fp' = "" /\ memo' = EmptyFn /\ edit' = NoEdit
   /\ UNCHANGED bad
 
 StepLoad ==
@@ -78,7 +78,7 @@ StepQuery ==
      /\ IF \E x \in v : x.prop \in {"C01", "C04"}
         THEN \* not a step of Session: consume the line, keep the state (re-sync fingerprint)
              /\ fp' = IF Ev.fp # "" THEN Ev.fp ELSE fp
-             /\ UNCHANGED <<text, starts, memo>>
+             /\ UNCHANGED <<text, starts, memo, edit>>
         ELSE Query(Ev.k, Ev.p, Ev.f, Ev)
 
 StepDet ==
@@ -87,6 +87,22 @@ StepDet ==
      THEN /\ bad' = bad \cup {[l |-> l, prop |-> "C03", what |-> "different result for equal inputs: " \o Ev.key, n |-> 1, first |-> 0]}
           /\ UNCHANGED svars
      ELSE Det(Ev.key, Ev.dg) /\ UNCHANGED bad
+
+StepInsert ==
+  /\ Ev.ev = "InsertLines"
+  /\ InsertLinesAt(Ev.p, Ev.f, Ev.at, Ev.ins)
+  /\ bad' = bad \cup (IF InsertLines(text[Ev.p][Ev.f], Ev.at, Ev.ins) # Ev.lines \/ InsBytes(Ev.ins) # Ev.db
+                      THEN {[l |-> l, prop |-> "MODEL", what |-> "edited buffer is not InsertLines of the old one", n |-> 1, first |-> 0]} ELSE {})
+
+\* results before/after the edit: equal up to positions (skeldiff, lendiff counted by the harness),
+\* every position moved exactly by the inserted lines / bytes (decided here)
+StepShift ==
+  /\ Ev.ev = "Shift"
+  /\ bad' = bad
+       \cup (IF Ev.skeldiff > 0 THEN {[l |-> l, prop |-> "C18", what |-> "result of " \o Ev.k \o " differs beyond positions after a text-moving edit", n |-> Ev.skeldiff, first |-> 0]} ELSE {})
+       \cup (IF Ev.lendiff > 0 THEN {[l |-> l, prop |-> "C18", what |-> "result of " \o Ev.k \o " has different ranges after a text-moving edit", n |-> Ev.lendiff, first |-> 0]} ELSE {})
+       \cup NonEmpty({Viol("C18", "position in " \o Ev.k \o " result not moved by the inserted lines/bytes", BadMoves(Ev))})
+  /\ UNCHANGED svars
 
 Finish ==
   /\ l = Len(Trace) + 1
@@ -97,7 +113,7 @@ Finish ==
 TNext ==
   \/ /\ l <= Len(Trace)
      /\ l' = l + 1
-     /\ (StepInit \/ StepLoad \/ StepCollect \/ StepQuery \/ StepDet)
+     /\ (StepInit \/ StepLoad \/ StepCollect \/ StepQuery \/ StepDet \/ StepInsert \/ StepShift)
   \/ Finish
 
 TSpec == TInit /\ [][TNext]_tvars
